@@ -277,6 +277,11 @@ async fn run_recv(enumerated: bool) {
         None => return,
     };
     let sent: Vec<Msg> = (0..N_MSGS).map(|i| message(100 + i, plan.frames[i as usize])).collect();
+    let presettled = choice(4) == 1;
+    if presettled {
+        sim::append_config(" pre-settled-deliveries");
+        sim::probe("recv-of-pre-settled-deliveries");
+    }
     // listener: a sender that sends the messages one after the other
     let ldone: Slot<Result<(), String>> = Slot::new();
     {
@@ -295,7 +300,9 @@ async fn run_recv(enumerated: bool) {
                 };
                 let mut futs = Vec::new();
                 for (i, m) in sent2.iter().enumerate() {
-                    match sim::op(&format!("peer send {}", i), s.send_batchable(m.clone())).await {
+                    // (one run in four: every delivery is sent settled)
+                    let sendable = fe2o3_amqp::Sendable::builder().message(m.clone()).settled(if presettled { Some(true) } else { None }).build();
+                    match sim::op(&format!("peer send {}", i), s.send_batchable(sendable)).await {
                         Some(Ok(f)) => futs.push(f),
                         Some(Err(e)) => {
                             ld.put(Err(format!("peer send {}: {:?}", i, e)));
@@ -524,7 +531,7 @@ async fn run_send(enumerated: bool) {
     };
     // one run in four splits deliveries at link level too (max-message-size below the message size);
     // in half of those every message is an exact multiple of it
-    let mms: Option<u64> = pick(&[None, None, None, None, None, None, Some(300u64), Some(128)]);
+    let mms: Option<u64> = pick(&[None, None, None, None, None, None, Some(300u64), Some(128), Some(40)]);
     let exact = mms == Some(128);
     let msgs_v: Vec<Msg> = (0..N_MSGS)
         .map(|i| {
